@@ -377,3 +377,78 @@ def ob_fill(ctx, res):
         res.fail("fill/errors", fn, "errors of the input stream must be passed through")
         return
     res.ok(fn, "fill: held value returned unchanged; gap -> {last_end, next.start, 0.0} then the value; no gap -> value unchanged; trailing filler to expected_end; errors pass through")
+
+
+def ob_window(ctx, res):
+    """C15-W1: structural clauses of the 50,000-base window accumulator (ValueIter::next); its arithmetic is NOT decided"""
+    fn = ctx.ast.fn(ME, "next", impl="ValueIter")
+    acc = [n for n in walk_no_nested_fn(fn.body) if n.k == "for" and strip(n["iter"]).k == "index" and up(strip(strip(n["iter"])["base"])) == "data"
+           and strip(strip(n["iter"])["index"]).k == "range"]
+    if len(acc) != 1:
+        res.fail("window/accumulate", fn, "expected one `for i in &mut data[a..b] { *i += value }` accumulation loop")
+        return
+    lp = acc[0]
+    rng = strip(strip(lp["iter"])["index"])
+    a, b = up(strip(rng["from"])), up(strip(rng["to"]))
+    if not re.fullmatch(r"\{\*(\w+) \+= (\w+) as f64;?\}", up(lp["body"])):
+        res.fail("window/accumulate-form", lp, "each base of the window must receive `+= value`")
+        return
+    # 1. must-follow: the window's used length is extended to b before the iteration can be left
+    blk = lp.parent
+    while blk is not None and blk.k != "block":
+        blk = blk.parent
+    st = blk["stmts"]
+    i0 = [i for i, s_ in enumerate(st) if any(x is lp for x in walk_no_nested_fn(s_))][0]
+    ext = None
+    for j in range(i0 + 1, len(st)):
+        t = up(st[j])
+        if re.fullmatch(r"(\w+) = \1\.max\(%s\);" % re.escape(b), t) or re.fullmatch(r"(\w+) = (std::cmp::)?max\(\1,%s\);" % re.escape(b), t):
+            ext = j
+            break
+        if any(x.k in ("break", "continue", "return") for x in walk_no_nested_fn(st[j])):
+            res.fail("window/extent-after-exit", st[j],
+                     "after bases [%s, %s) were added to the window, the iteration can be left (`%s`) before the window's used length is extended to %s: "
+                     "everything a value that reaches the window end contributed is cut off when the window is re-encoded" % (a, b, up(st[j])[:50], b))
+            return
+    if ext is None:
+        res.fail("window/extent", blk, "the window's used length is never extended to `%s` after accumulating" % b)
+        return
+    res.ok(st[ext], "accumulate data[%s..%s] then extend the used length to %s before any exit of the iteration" % (a, b, b))
+    # 2. index computation
+    la = binding_before(fn, a, lp)
+    lb = binding_before(fn, b, lp)
+    ta = up(strip(la[1]["init"])) if la is not None and la[0] == "let" else ""
+    tb = up(strip(lb[1]["init"])) if lb is not None and lb[0] == "let" else ""
+    if not re.fullmatch(r"\(?current_start\.max\((\w+)\.start\) - current_start\)? as usize", ta) or \
+            not re.fullmatch(r"DATA_SIZE\.min\(\(?(\w+)\.end - current_start\)? as usize\)", tb):
+        res.fail("window/indices", lp, "window indices must be max(current_start, v.start) - current_start and min(DATA_SIZE, v.end - current_start); got `%s` / `%s`" % (ta, tb))
+        return
+    res.ok(lp, "window indices: [max(window start, v.start), min(window end, v.end)) relative to the window start")
+    # 3. hold-back sites
+    holds = [n for n in walk_no_nested_fn(fn.body) if n.k == "if" and re.search(r"\*(\w+) = Some\((\w+)\); break 'section;?\}$", up(n["then"]))]
+    conds = sorted(up(strip(h["cond"])) for h in holds)
+    if len(holds) != 2 or not any(re.fullmatch(r"%s >= DATA_SIZE" % re.escape(a), c) for c in conds) or \
+            not any(re.fullmatch(r"\(?(\w+)\.end - current_start\)? as usize >= DATA_SIZE", c) for c in conds):
+        res.fail("window/hold-back", fn, "a value beyond the window (start index >= DATA_SIZE) or reaching its end (v.end - window start >= DATA_SIZE) must be held back for the next window; conditions: %s" % conds)
+        return
+    res.ok(holds[0], "values starting beyond or reaching the end of the window are held back (`*last = Some(v); break`) and re-examined in the next window")
+    # 4. window advance
+    t = up(fn.body)
+    if "let current_start = self.next_start; self.next_start = current_start + DATA_SIZE as u32;" not in t:
+        res.fail("window/advance", fn, "windows must tile the chromosome: next_start advances by exactly DATA_SIZE per window")
+        return
+    c = ctx.ast.const(ME, "DATA_SIZE")
+    res.ok(fn, "windows tile the coordinate space: start = next_start; next_start += DATA_SIZE")
+    # 5. zero runs are not emitted
+    pushes = [n for n in walk_no_nested_fn(fn.body) if n.k == "mcall" and n["method"] == "push" and up(strip(n["recv"])) == "next_sections"]
+    okp = 0
+    for p in pushes:
+        iff = p.parent
+        while iff is not None and iff.k != "if":
+            iff = iff.parent
+        if iff is not None and re.fullmatch(r"(\w+)\.2 != 0\.0", up(strip(iff["cond"]))):
+            okp += 1
+    if len(pushes) != 2 or okp != 2:
+        res.fail("window/zero-runs", fn, "runs are emitted at two places (value change, end of window), each only when the run's sum is non-zero")
+        return
+    res.ok(pushes[0], "runs are re-encoded at value changes and at the end of the window, zero-sum runs are dropped")
